@@ -177,10 +177,12 @@ pub fn check_coord(sh: &mut Shard, a: &IG, q: IP, lat: &Lat, verbose: bool) {
 }
 
 pub fn run(ctx: &Ctx, sh: &mut Shard) {
-    let mut k = 0u64;
-    while sh.cases < ctx.budget {
+    for k in ctx.case_indices() {
+        if sh.cases >= ctx.budget {
+            break;
+        }
+        ctx.mark_case(k);
         let mut r = Rng::derive(ctx.seed, ctx.shard, k);
-        k += 1;
         let (a, b, lat) = super::c01::gen_case(&mut r);
         if a.n_segments() + b.n_segments() > 90 {
             continue;
